@@ -91,6 +91,9 @@ class extract_visitor(NodeVisitor):
     def visit_Assign(self, node):
         # type: (ast.Assign) -> None
         eend = get_expr_end(node.value)
+        # the value may open regions of its own: the names are bound in the
+        # one it ends in
+        self.visit(node.value)
         for targets in node.targets:
             for name, _ in get_indexes_for_target(targets, [], []):
                 if isinstance(name, Attribute):
@@ -101,7 +104,8 @@ class extract_visitor(NodeVisitor):
                     name.flow = self.flow  # type: ignore[attr-defined]
                     self.flow.add_name(AssignedName(name.id, eend, np(name), node.value))
 
-        self.generic_visit(node)
+        for targets in node.targets:
+            self.visit(targets)
 
     def visit_AnnAssign(self, node):
         # type: (ast.AnnAssign) -> None
@@ -110,6 +114,8 @@ class extract_visitor(NodeVisitor):
         else:
             eend = get_expr_end(node)
         name = node.target
+        if node.value:
+            self.visit(node.value)
         if isinstance(name, Attribute):
             self.top.add_attr_assign(self.flow.scope, name, node.value)  # type: ignore[arg-type]  # TODO
         elif isinstance(name, UNSUPPORTED_ASSIGMENTS):
@@ -117,7 +123,8 @@ class extract_visitor(NodeVisitor):
         elif node.value:
             name.flow = self.flow  # type: ignore[attr-defined]
             self.flow.add_name(AssignedName(name.id, eend, np(name), node.value))
-        self.generic_visit(node)
+        self.visit(node.target)
+        self.visit(node.annotation)
 
     def visit_AugAssign(self, node):
         # type: (ast.AugAssign) -> None
@@ -422,9 +429,9 @@ class extract_visitor(NodeVisitor):
         # type: (ast.NamedExpr) -> None
         eend = get_expr_end(node.value)
         name = node.target
+        self.visit(node.value)
         name.flow = self.flow  # type: ignore[attr-defined]
         self.flow.add_name(AssignedName(name.id, eend, np(name), node.value))
-        self.generic_visit(node)
 
 
 extract = visitor(extract_visitor)
